@@ -12,6 +12,9 @@ pub broadcast axiom fn axiom_string_key_model()
 pub broadcast axiom fn axiom_string_ext(a: String, b: String)
     ensures #[trigger] a@ == #[trigger] b@ ==> a == b;
 
+pub broadcast axiom fn axiom_str_ext(a: &str, b: &str)
+    ensures #[trigger] a@ == #[trigger] b@ ==> a == b;
+
 pub uninterp spec fn string_of(s: Seq<char>) -> String;
 
 pub broadcast axiom fn axiom_string_of(s: Seq<char>)
@@ -34,7 +37,7 @@ pub broadcast axiom fn axiom_set_removed_str(old_m: Set<String>, new_m: Set<Stri
         <==> new_m == old_m.remove(string_of(k@));
 
 pub broadcast group group_string_keys {
-    axiom_string_key_model, axiom_string_ext, axiom_string_of,
+    axiom_string_key_model, axiom_string_ext, axiom_str_ext, axiom_string_of,
     axiom_set_contains_str, axiom_map_contains_str, axiom_map_value_str, axiom_set_removed_str,
 }
 
